@@ -100,6 +100,9 @@ func c19HTTP(c *core.Case) *core.Result {
 		if res := crashed("while a REST patch was served"); res != nil {
 			return res
 		}
+		if err != nil && !dbQuiet(w.b, 3*time.Second) {
+			return c.Inconclusive("the REST patch was not answered within the client's timeout; the server is still busy: %v", err)
+		}
 		if err != nil {
 			return c.Violation("http:no-answer", "the REST patch was not answered: %v", err)
 		}
@@ -150,6 +153,9 @@ func c19HTTP(c *core.Case) *core.Result {
 		code, rb, err := post([]byte(bad))
 		if res := crashed("while an unpatchable REST request was served"); res != nil {
 			return res
+		}
+		if err != nil && !dbQuiet(w.b, 3*time.Second) {
+			return c.Inconclusive("the REST request was not answered within the client's timeout; the server is still busy: %v", err)
 		}
 		if err != nil {
 			return c.Violation("http:no-answer", "the unpatchable REST request %q was not answered: %v", bad, err)
